@@ -363,7 +363,7 @@ def gen_o_reflect(rng, n):
             ds = [(np.array(x) * rng.uniform(0.5, 2) + np.array([0.0] + [rng.gauss(0, 0.2) for _ in range(dim)])).tolist() for x in ds]
             ds = [x for x in ds if G.mink(np.array(x), np.array(x)) > 0.2]
             if len(ds) < dim + 1:
-                shape, ds = [], ds[:1]
+                shape, ds = [], [[0.1, 1.0, 0.3] + [0.0] * (dim - 2)]
         yield {"dim": dim, "shape": shape, "d": ds, "w": [rng.gauss(0, 1) for _ in range(dim + 1)],
                "normals_only": rng.random() < 0.7}
 
@@ -540,6 +540,15 @@ def run_o_fixed(inp):
     fp = np.array(iso.fixed_point().proj_data, dtype=float)
     pair = np.array(iso.fixed_point_pair().proj_data, dtype=float)
     out = {"M": M.tolist(), "fp": fp.tolist(), "pair": pair.tolist()}
+    # the documented options: no sorting by eigenvalue modulus (still a fixed point of the closed ball first)
+    fp2 = np.array(iso.fixed_point(max_eigval=False).proj_data, dtype=float)
+    pair2 = np.array(iso.fixed_point_pair(sort_eigvals=False).proj_data, dtype=float)
+
+    def _res(v):
+        v = v / np.linalg.norm(v)
+        w = v @ M
+        return [float(np.abs(np.outer(w, v) - np.outer(v, w)).max()), float(G.mink(v, v))]
+    out["plain"] = {"fp": _res(fp2), "pair0": _res(pair2[0]), "pair1": _res(pair2[1]), "pair_shape": list(pair2.shape)}
     if inp["kind"] == "lox":
         out["axis"] = np.array(iso.axis().proj_data, dtype=float).tolist()
         att = np.array([1.0, 1.0 if inp["t"] > 0 else -1.0] + [0.0] * (dim - 1)) @ g
@@ -578,6 +587,13 @@ def judge_o_fixed(inp, obs, lr):
         return {"expected": "reported point in the closed ball", "observed": {"norm": norm, "fp": obs["fp"]}, "tags": dict(tags, what="ball")}
     if kind == "rot" and not norm < -1e-9:
         return {"expected": "interior point for an elliptic isometry", "observed": {"norm": norm}, "tags": dict(tags, what="interior")}
+    pl = obs["plain"]
+    if not (pl["fp"][0] <= 1e-6 * scale and pl["fp"][1] <= 1e-6 and pl["pair0"][0] <= 1e-6 * scale and pl["pair0"][1] <= 1e-6
+            and (kind != "lox" or pl["pair1"][0] <= 1e-5 * scale)):
+        return {"expected": "fixed_point(max_eigval=False) / fixed_point_pair(sort_eigvals=False): fixed points, the first in the closed ball",
+                "observed": pl, "tags": dict(tags, what="unsorted option")}
+    if kind == "lox" and not (abs(pl["pair1"][1]) <= 1e-6):
+        return {"expected": "loxodromic, unsorted option: both reported points are the ideal endpoints", "observed": pl, "tags": dict(tags, what="unsorted pair")}
     if kind == "par" and not G.proj_equal(obs["fp"], obs["par_fix"], 1e-4):
         return {"expected": {"the ideal fixed point": obs["par_fix"]}, "observed": obs["fp"], "tags": dict(tags, what="parabolic")}
     if kind == "lox":
@@ -714,6 +730,75 @@ def judge_o_batch(inp, obs, lr):
     return None
 
 
+# ---- reflections across subspaces given by an ideal basis (Subspace / Geodesic, not Hyperplane) --------------------
+def gen_o_subrefl(rng, n):
+    for _ in range(n):
+        dim = rng.choice([2, 2, 3, 4])
+        shape = rng.choice([[], [], [2], [3]])
+        cnt = int(np.prod(shape)) if shape else 1
+        units = []
+        for _ in range(cnt):
+            while True:
+                ks = np.array([G.fsphere(rng, dim) for _ in range(dim)])
+                T = ks[1:] - ks[0]
+                if np.linalg.svd(T, compute_uv=False)[-1] > 0.3:
+                    foot = ks[0] - ks[0] @ np.linalg.pinv(T) @ T
+                    if 0.15 < np.linalg.norm(foot) < 0.95:
+                        break
+            units.append(ks.tolist())
+        yield {"dim": dim, "shape": shape, "units": units, "kind": rng.choice(["subspace", "geodesic"]) if dim == 2 else "subspace",
+               "s": [rng.uniform(0.4, 2.5) for _ in range(dim)], "lowdim": rng.random() < 0.15 and dim >= 3}
+
+
+def run_o_subrefl(inp):
+    dim, shape = inp["dim"], tuple(inp["shape"])
+    K = np.array(inp["units"]).reshape(shape + (dim, dim))
+    data = np.concatenate([np.ones(shape + (dim, 1)), K], axis=-1) * np.array(inp["s"]).reshape((dim, 1))
+    if inp["lowdim"]:
+        try:
+            H.Subspace(data[..., :-1, :].copy()).reflection_across()
+            return {"lowdim": "accepted"}
+        except GeometryError:
+            return {"lowdim": "GeometryError"}
+    if inp["kind"] == "geodesic":
+        obj = H.Geodesic(H.IdealPoint(data[..., 0, :].copy()), H.IdealPoint(data[..., 1, :].copy()))
+    else:
+        obj = H.Subspace(data.copy())
+    R = np.array(obj.reflection_across().proj_data, dtype=float)
+    Jm = G.J(dim)
+    out = {"shape_ok": list(R.shape) == list(shape + (dim + 1, dim + 1))}
+    if not out["shape_ok"]:
+        out["shape"] = list(R.shape)
+        return out
+    out["invol"] = float(np.abs(R @ R - np.eye(dim + 1)).max())
+    out["form"] = float(np.abs(R @ Jm @ np.swapaxes(R, -1, -2) - Jm).max())
+    out["det"] = float(np.max(np.abs(np.linalg.det(R) + 1)))
+    out["wall"] = float(np.abs(data @ R - data).max())
+    d = np.array(obj.spacelike_complement().proj_data, dtype=float)
+    dn = d / np.linalg.norm(d, axis=-1, keepdims=True)
+    out["normal_spacelike"] = float(np.min(G.mink(dn, dn)))
+    out["normal_orth"] = float(np.abs(np.einsum("...ki,ij,...j->...k", data, Jm, dn)).max())
+    out["normal_neg"] = float(np.abs(np.einsum("...i,...ij->...j", dn, R) + dn).max())
+    return out
+
+
+def judge_o_subrefl(inp, obs, lr):
+    tags = {"dim": inp["dim"], "kind": inp["kind"], "composite": bool(inp["shape"]), "call_site": "Subspace.reflection_across"}
+    if "exc" in obs:
+        return {"expected": "reflection across the subspace", "observed": obs, "tags": dict(tags, exc=obs["exc"])}
+    if "lowdim" in obs:
+        if obs["lowdim"] != "GeometryError":
+            return {"expected": "no reflection across a subspace of codimension > 1 (GeometryError)", "observed": obs, "tags": dict(tags, what="lowdim")}
+        return None
+    if not obs["shape_ok"]:
+        return {"expected": "one reflection per subspace", "observed": obs.get("shape"), "tags": dict(tags, what="shape")}
+    if not (obs["invol"] <= 1e-7 and obs["form"] <= 1e-7 and obs["det"] <= 1e-7 and obs["wall"] <= 1e-7):
+        return {"expected": "involutive, orientation-reversing isometry fixing the ideal basis of the wall", "observed": obs, "tags": dict(tags, what="reflection")}
+    if not (obs["normal_spacelike"] > 1e-6 and obs["normal_orth"] <= 1e-7 and obs["normal_neg"] <= 1e-7):
+        return {"expected": "spacelike_complement: spacelike, orthogonal to the subspace, negated by the reflection", "observed": obs, "tags": dict(tags, what="normal")}
+    return None
+
+
 TRIANGLES = [(2, 3, 7), (2, 4, 5), (3, 3, 4), (2, 3, 8), (4, 4, 4), (2, 5, 5), (3, 4, 5), (2, 3, 12)]
 
 
@@ -790,6 +875,10 @@ CLAUSES = [
            budget={"quick": 150, "thorough": 5000},
            what="array-valued isometries (1-8 units incl. exactly dim+1; standard, turned and arbitrarily conjugated members, both signs of the translation): "
                 "from_reflection / Geodesic.from_reflection per unit, batches containing a non-reflection rejected, fixed_point / fixed_point_pair per unit"),
+    Clause("subspace_reflection_oracle", "oracle", gen_o_subrefl, run_o_subrefl, judge_o_subrefl, site="hyperbolic.Subspace.reflection_across",
+           budget={"quick": 120, "thorough": 4000},
+           what="Subspace(ideal basis of n points) / Geodesic (dim 2), single and composite: reflection_across involutive, form preserving, det -1, fixes the ideal basis; "
+                "spacelike_complement spacelike, orthogonal, negated; lower-dimensional subspaces refused"),
     Clause("coxeter_oracle", "oracle", gen_o_coxeter, run_o_coxeter, judge_o_coxeter, site="hyperbolic.Hyperplane.from_reflection",
            budget={"quick": 40, "thorough": 400}, what="reflections w a w^-1 of hyperbolic triangle-group representations: accepted, round trip, wall fixed"),
 ]
